@@ -12,6 +12,9 @@
 //!    a in {0.1, 1/3}, counts 2..=24;
 //!  * NaN ordinates (remove_nan): series of length 1..=4 over the abscissae above (length <= 3 exhaustively) with
 //!    ordinates over {NaN, +inf, -inf, 0, 1} (an infinite ordinate is not a NaN: the point is kept).
+//!  * wave 4: validation helpers / constructors on vectors of length <= 4 whose neighbours are one rounding step apart
+//!    (0.3 / 0.1+0.2, 1 / 1+2^-52, -1 / -1+2^-53, 0 / 5e-324), push chains of length 4, and shift_by / scaled_by with
+//!    non-finite parameters or overflowing abscissae (valid result or loud failure, never a silently invalid series).
 //! Oracles are brute force: the piecewise-linear graph is evaluated segment by segment; at a repeated abscissa the graph
 //! is the SET of ordinates stored there.  Outside the stated preconditions of props/C17.json (empty series, n < 2,
 //! NaN probe, slice entirely left of the domain) nothing is evaluated.
@@ -387,8 +390,100 @@ fn check_inexact_stepping(r: &mut Report) {
     } }
 }
 
+// ------------------------------------------------------------------------------------------------ wave 4 additions
+fn ulp_up(x: f64) -> f64 { if x > 0.0 { f64::from_bits(x.to_bits() + 1) } else if x < 0.0 { -f64::from_bits((-x).to_bits() - 1) } else { f64::from_bits(1) } }
+
+/// validation helpers and constructors on vectors whose neighbours are ONE ROUNDING STEP apart (0.3 / 0.1+0.2,
+/// 1 / 1+2^-52, -1 / -1+2^-53, 0 / 5e-324): "ascending" means w[0] <= w[1] exactly, "descending" w[0] >= w[1] exactly;
+/// push chains of length <= 4 (a value strictly between the first and the last one must be refused).
+fn check_rounding_step_neighbours(r: &mut Report) {
+    use crate::common::vec_f64::{are_all_finite, are_in_ascending_order, are_in_descending_order};
+    let pool = [-1.0, ulp_up(-1.0), 0.0, 5e-324, 0.3, 0.1 + 0.2, 1.0, ulp_up(1.0), f64::INFINITY, f64::NAN];
+    for len in 0..=4usize {
+        tuples(&pool, len, &mut |v| {
+            r.case();
+            let asc = v.windows(2).all(|w| w[0] <= w[1]);
+            let desc = v.windows(2).all(|w| w[0] >= w[1]);
+            let fin = v.iter().all(|x| x.is_finite());
+            let d = || format!("{:?}", v);
+            r.check(guarded(|| are_all_finite(v)) == Some(fin), "vec_f64::are_all_finite: true exactly when no value is NaN or infinite", d);
+            r.check(guarded(|| are_in_ascending_order(v)) == Some(asc), "vec_f64::are_in_ascending_order: true exactly when w[0] <= w[1] for every neighbouring pair (no slack, not even one rounding step)", d);
+            r.check(guarded(|| are_in_descending_order(v)) == Some(desc), "vec_f64::are_in_descending_order: true exactly when w[0] >= w[1] for every neighbouring pair (no slack, not even one rounding step)", d);
+            let valid = fin && asc;
+            let dd = || format!("DiscreteDomain::try_from({:?})", v);
+            match guarded(|| DiscreteDomain::try_from(v.to_vec())) {
+                None => r.check(false, "try_from: returns (no panic)", dd),
+                Some(Ok(dom)) => {
+                    r.check(valid, "try_from: Ok only for finite ascending values (never a silently invalid domain)", dd);
+                    r.check(same_bits_or_eq(dom.values(), v), "try_from: the accepted domain holds exactly the given values", dd);
+                }
+                Some(Err(_)) => r.check(!valid, "try_from: finite ascending values are accepted", dd),
+            }
+            let y: Vec<f64> = (0..len).map(|k| k as f64).collect();
+            let d2 = || format!("Series1::try_new({:?}, {:?})", v, y);
+            match guarded(|| Series1::try_new(v.to_vec(), y.clone())) {
+                None => r.check(false, "try_new: returns (no panic)", d2),
+                Some(Ok(_)) => r.check(valid, "try_new: Ok only for finite ascending abscissae with a matching number of ordinates", d2),
+                Some(Err(_)) => r.check(!valid, "try_new: valid input is accepted", d2),
+            }
+        });
+    }
+    let pushes = [-1.0, 0.0, 0.3, 0.1 + 0.2, 1.0, 2.0, 3.0, f64::NEG_INFINITY, f64::NAN];
+    tuples(&pushes, 4, &mut |seq| {
+        r.case();
+        let d = || format!("DiscreteDomain::default() then push each of {:?}", seq);
+        let mut dom = DiscreteDomain::default();
+        let mut model: Vec<f64> = vec![];
+        for &v in seq {
+            let expect_ok = v.is_finite() && model.last().map_or(true, |l| v >= *l);
+            match guarded(|| dom.push(v).is_ok()) {
+                None => { r.check(false, "push: returns (no panic)", d); return; }
+                Some(ok) => {
+                    r.check(ok == expect_ok, "push: Ok exactly for a finite value not below the last one", d);
+                    if ok && expect_ok { model.push(v); }
+                }
+            }
+            r.check(finite_ascending(dom.values()), "push: the domain stays finite and ascending", d);
+            let same = same_bits_or_eq(dom.values(), &model);
+            r.check(same, "push: appends the accepted value, leaves the domain unchanged on error", d);
+            if !same { return; }
+        }
+    });
+}
+
+/// derived operations whose parameter or result leaves the finite range: shifting / scaling by +-inf or NaN, and by
+/// finite amounts that overflow the abscissae (|x| up to 1e308): the result is finite ascending with matching
+/// ordinates, or the call fails loudly (these functions return Self: the failure is the unwrap panic of the
+/// validating constructor) - never a silently invalid object.
+fn check_nonfinite_derivations(r: &mut Report) {
+    let series: Vec<(Vec<f64>, Vec<f64>)> = vec![
+        (vec![0.0], vec![1.0]), (vec![0.0, 1.0], vec![1.0, 2.0]), (vec![-1.0, 0.0, 0.5, 3.0], vec![0.0, 1.0, -1.0, 2.0]), (vec![1.0, 1.0, 2.0], vec![0.0, 1.0, 2.0]),
+        (vec![-1e308, 0.0, 1e308], vec![0.0, 1.0, 2.0]), (vec![1e308, 1.5e308], vec![0.0, 1.0]), (vec![-1.7e308, -1e308], vec![0.0, 1.0]),
+    ];
+    let params = [f64::INFINITY, f64::NEG_INFINITY, f64::NAN, 1e308, -1e308, f64::MAX, f64::MIN, 10.0, -10.0, 2.0, -2.0, 1e-320];
+    for (xs, ys) in series.iter() {
+        let Ok(s) = Series1::try_new(xs.clone(), ys.clone()) else { r.check(false, "try_new: valid input is accepted", || format!("{:?} {:?}", xs, ys)); continue; };
+        for &p in params.iter() {
+            r.case();
+            let d = || format!("Series1 x={:?} y={:?} shift_by({:?}, 0.5)", xs, ys, p);
+            if let Some(t) = guarded(|| s.shift_by(p, 0.5)) {
+                r.check(inv(&t) && t.y.len() == xs.len(), "shift_by, non-finite shift or overflowing abscissae: finite ascending abscissae with matching ordinates, or a loud failure - never a silently invalid series", d);
+            }
+            let d = || format!("Series1 x={:?} y={:?} scaled_by({:?}, 2.0)", xs, ys, p);
+            if let Some(t) = guarded(|| s.scaled_by(p, 2.0)) {
+                r.check(inv(&t) && t.y.len() == xs.len(), "scaled_by, non-finite factor or overflowing abscissae: finite ascending abscissae with matching ordinates, or a loud failure - never a silently invalid series", d);
+            }
+        }
+        let yn: Vec<f64> = ys.iter().enumerate().map(|(k, v)| if k % 2 == 0 { f64::NAN } else { *v }).collect();
+        if let Ok(sn) = Series1::try_new(xs.clone(), yn.clone()) {
+            let d = || format!("Series1 x={:?} y={:?} remove_nan()", xs, yn);
+            if let Some(t) = guarded(|| sn.remove_nan()) { r.check(inv(&t), "remove_nan: finite ascending abscissae with a matching number of ordinates", d); }
+        }
+    }
+}
+
 pub fn run() -> Option<Report> {
-    let mut r = Report::new("constructors on every vector of length <= 4 over {-inf,-1,0,0.5,1,+inf,NaN}, push chains <= 3, linear/linear_space over bounds {-1,0,0.5,1,2,3}^2 x n in {2,3,4,5,9}; every series with 1..=4 non-decreasing abscissae over {0,0.5,1,2,3} and ordinates over {-1,0,1,2}: interpolate / between / in_interval / split_at_x / area_under / resampled_n / resampled_x / y_crossings / scaled_by / shift_by / one chain, probes and bounds over 11 values in [-1,4] plus 1+2^-50 and 2-2^-40 for slices/splits, 8 levels, counts {2,3,4,5,7,9}; two-knot series with inexact stepping x counts 2..=24; remove_nan / has_nan / has_nan_between with ordinates over {NaN,+inf,-inf,0,1}");
+    let mut r = Report::new("constructors on every vector of length <= 4 over {-inf,-1,0,0.5,1,+inf,NaN}, push chains <= 3, linear/linear_space over bounds {-1,0,0.5,1,2,3}^2 x n in {2,3,4,5,9}; every series with 1..=4 non-decreasing abscissae over {0,0.5,1,2,3} and ordinates over {-1,0,1,2}: interpolate / between / in_interval / split_at_x / area_under / resampled_n / resampled_x / y_crossings / scaled_by / shift_by / one chain, probes and bounds over 11 values in [-1,4] plus 1+2^-50 and 2-2^-40 for slices/splits, 8 levels, counts {2,3,4,5,7,9}; two-knot series with inexact stepping x counts 2..=24; remove_nan / has_nan / has_nan_between with ordinates over {NaN,+inf,-inf,0,1}; wave 4: vec_f64 validation helpers, try_from and try_new on every vector of length <= 4 over {-1, -1+2^-53, 0, 5e-324, 0.3, 0.1+0.2, 1, 1+2^-52, +inf, NaN} (neighbours one rounding step apart), push chains of length 4 over {-1, 0, 0.3, 0.1+0.2, 1, 2, 3, -inf, NaN}; shift_by / scaled_by with parameters {+-inf, NaN, +-1e308, +-f64::MAX, +-10, +-2, 1e-320} on 7 series incl. abscissae up to +-1.7e308");
     // the real code is called under catch_unwind: keep the default hook from printing one message per caught panic
     let hook = std::panic::take_hook();
     std::panic::set_hook(Box::new(|_| {}));
@@ -401,6 +496,8 @@ pub fn run() -> Option<Report> {
         }
         check_inexact_stepping(&mut r);
         check_nan_removal(&mut r);
+        check_rounding_step_neighbours(&mut r);
+        check_nonfinite_derivations(&mut r);
     }));
     std::panic::set_hook(hook);
     if res.is_err() { r.check(false, "the bounded check itself completes (no panic outside a guarded call)", || "see stderr".to_string()); }
